@@ -69,6 +69,13 @@ CHECKS = {
          "NoCloseOnPanic refuted by TLC",
          "Crash points are enumerated by TLC, not sampled; the state left behind is observed by follow-up requests and the compressor ledger.",
          "6 C10", "Trusted: TLC, Json module, net/http/httptest, compress/*; filters call ProcessFilter at most once; payload fidelity enters the specification as logged booleans."),
+ "C19": ("TLC exhaustive model checking of MC_Pure (every interleaving of three requests in flight; invariants Pure / NoResidue; four "
+         "counter-models - shared parameter map, attribute map, filter chain, CORS methods - each refuted) + TLC trace validation (PureTrace) "
+         "of real-container histories: each request key is bound on a fresh container and every later observation (sequential position, "
+         "16-goroutine batch, tracing on; part under the race detector) must equal it and must have seen its own request",
+         "Purity is a statement over histories and schedules: the model shows which per-request objects it depends on, the trace "
+         "validation compares every real observation with the fresh-container one.", "6 C19",
+         "Trusted: TLC, Json module, net/http, the race detector (dynamic: evidence for the explored schedules only)."),
 }
 
 NOT_YET = "check under construction in this round; see DESIGN.md section 13 (build order)"
